@@ -60,6 +60,16 @@ def cases(tier, rng, boost=1):
     # periodic micro model: strictly alternating between two groups of microstates -> irreducible but NOT ergodic -> must be refused
     yield _mk([[0, 2, 1, 3, 0, 3, 1, 2, 0, 2, 1, 3, 1, 2, 0, 3, 0, 2]], [[5, 9, 5, 9, 5, 9, 5, 9, 5, 9, 5, 9, 5, 9, 5, 9, 5, 9]], 1, False, src='corpus', kind='lump')
     yield _mk([[0, 2, 1, 3, 0, 3, 1, 2, 0, 2, 1, 3, 1, 2, 0, 3, 0, 2]], [[5, 9, 6, 9, 5, 9, 6, 9, 5, 9, 6, 9, 6, 9, 5, 9, 5, 9]], 3, True, src='corpus', kind='lump')
+    # long trajectories (prime lengths above powers of two) in which some microstates are visited for the first time late — beyond the first blocks of a
+    # blockwise search —, so that reading a microstate's macrostate at its first frame needs the right global index
+    for N_ in (4099, 8209, 12301) + ((65537,) if tier == 'thorough' else ()):
+        lrng = core.Rng(N_)
+        mi = [lrng.randrange(3) for _ in range(N_)]
+        for k_ in range(N_ // 2 + 7, N_):
+            mi[k_] = lrng.randrange(6)                       # microstates 3, 4, 5 appear only in the second half
+        ma = [[10, 10, 20, 30, 20, 30][x] for x in mi]     # first-half and second-half microstates share macrostates, the late ones in another order
+        yield _mk([mi], [ma], 1, False, src='corpus-long', kind='lump')
+        yield _mk([mi], [ma], 2, True, src='corpus-long', kind='lump')
     nmodels = {'quick': 150, 'thorough': 1500, 'search': 400}[tier] * boost
     for _ in range(nmodels):
         n = rng.randint(2, 7)
